@@ -197,7 +197,26 @@ func runC27Child(c *Ctx) {
 		return
 	}
 	var recs []c27Record
-	for _, sc := range c27Scenarios(c) {
+	scales := []int{1}
+	if c.thorough() {
+		scales = []int{1, 4, 25}
+	}
+	for _, scale := range scales {
+		c27Scale = scale
+		for _, sc := range c27Scenarios(c) {
+			if scale > 1 {
+				sc.name += fmt.Sprintf(" [batches x%d]", scale)
+			}
+			recs = append(recs, c27RunScenario(sc))
+		}
+	}
+	data, err := json.Marshal(recs)
+	must(err)
+	must(os.WriteFile(filepath.Join(c.Out, "scenarios.json"), data, 0o644))
+}
+
+func c27RunScenario(sc c27Scenario) c27Record {
+	{
 		rec := c27Record{Name: sc.name, Group: sc.group, Logged: map[string]int{}}
 		h := recHandler{mu: &sync.Mutex{}, seen: rec.Logged}
 		sc.run(slog.New(h)) // memory only
@@ -214,11 +233,8 @@ func runC27Child(c *Ctx) {
 		b1, b2 := fdSize(1), fdSize(2)
 		rec.Outcome, rec.Errored = sc.run(nil) // the subject: Config.Logger = nil
 		rec.Fd1, rec.Fd2 = fdSize(1)-b1, fdSize(2)-b2
-		recs = append(recs, rec)
+		return rec
 	}
-	data, err := json.Marshal(recs)
-	must(err)
-	must(os.WriteFile(filepath.Join(c.Out, "scenarios.json"), data, 0o644))
 }
 
 // metaWrap: a MetaStore with injectable Update/iteration failures and a hook that rewrites
@@ -292,7 +308,11 @@ func newC27Rig(logger *slog.Logger, mutate func(*bs.BloomSearchEngineConfig)) *c
 	return r
 }
 
+// c27Scale multiplies the size of every batch (thorough tier: the histories are run at several sizes)
+var c27Scale = 1
+
 func c27Rows(base, n int) []map[string]any {
+	n *= c27Scale
 	rows := make([]map[string]any, n)
 	for i := range rows {
 		rows[i] = map[string]any{"id": base + i, "n": base + i, "p": fmt.Sprintf("p%d", (base+i)%3),
